@@ -243,6 +243,61 @@ theorem wide_key_loses : finds false 32 65535 = true ∧ finds false 32 65536 = 
 
 end Ids
 
+/-! ### The datagram reader: junk in front of a reply costs nothing -/
+namespace Udp
+open Model.C02.Udp
+
+/-- A reader that hands every `Read` the full buffer returns the first datagram that is a dns message, whole, whatever
+shorter datagrams (any number, any lengths below a header, empty ones) came before it and whatever comes behind it. -/
+theorem reply_after_junk (cap : Nat) (junk : List Nat) (d : Nat) (rest : List Nat)
+    (hj : ∀ j ∈ junk, j < headerLen) (hd : headerLen ≤ d) (hc : d ≤ cap) :
+    readMsg true cap (junk ++ d :: rest) = some d := by
+  induction junk with
+  | nil =>
+    have : min cap d = d := Nat.min_eq_right hc
+    simp [readMsg, this, hd]
+  | cons j js ih =>
+    have hjlt : j < headerLen := hj j (by simp)
+    have hmin : ¬ headerLen ≤ min cap j := by
+      have : min cap j ≤ j := Nat.min_le_right _ _
+      omega
+    have ih' := ih (fun x hx => hj x (by simp [hx]))
+    simp [readMsg, hmin, ih']
+
+/-- the size of the buffer does not matter beyond "at least the message" -/
+theorem reply_after_junk_any_buffer (cap cap' : Nat) (junk : List Nat) (d : Nat) (rest : List Nat)
+    (hj : ∀ j ∈ junk, j < headerLen) (hd : headerLen ≤ d) (hc : d ≤ cap) (hc' : d ≤ cap') :
+    readMsg true cap (junk ++ d :: rest) = readMsg true cap' (junk ++ d :: rest) := by
+  rw [reply_after_junk cap junk d rest hj hd hc, reply_after_junk cap' junk d rest hj hd hc']
+
+/-- once the buffer is shorter than a header, a reader that keeps it that way returns nothing any more -/
+theorem cut_buffer_returns_nothing (buf : Nat) (ds : List Nat) (hb : buf < headerLen) : readMsg false buf ds = none := by
+  induction ds generalizing buf with
+  | nil => simp [readMsg]
+  | cons d ds ih =>
+    have hle : min buf d ≤ buf := Nat.min_le_left _ _
+    have hmin : ¬ headerLen ≤ min buf d := by omega
+    have := ih (min buf d) (by omega)
+    simp [readMsg, hmin, this]
+
+/-- Witness that "every Read gets the full buffer" is needed: with a reader that re-slices the buffer to a skipped
+datagram, ONE datagram shorter than a header loses every reply behind it, for every buffer size. -/
+theorem resliced_buffer_loses (cap j : Nat) (ds : List Nat) (hj : j < headerLen) : readMsg false cap (j :: ds) = none := by
+  have hle : min cap j ≤ j := Nat.min_le_right _ _
+  have hmin : ¬ headerLen ≤ min cap j := by omega
+  have := cut_buffer_returns_nothing (min cap j) ds (by omega)
+  simp [readMsg, hmin, this]
+
+example : readMsg true 4095 [5, 0, 1, 40, 30] = some 40 := by decide
+example : readMsg false 4095 [5, 40] = none := by decide
+
+/-- the reader as built: the regenerated buffer size, every Read gets all of it -/
+theorem reply_after_junk_src (cap : Nat) (_ : Gen.Facts.c02UdpRxBufSize = some cap) (_ : Gen.Facts.c02UdpEveryReadGetsFullBuffer = some true)
+    (junk : List Nat) (d : Nat) (rest : List Nat) (hj : ∀ j ∈ junk, j < headerLen) (hd : headerLen ≤ d) (hc : d ≤ cap) :
+    readMsg true cap (junk ++ d :: rest) = some d := reply_after_junk cap junk d rest hj hd hc
+
+end Udp
+
 /-! ### Guards over the regenerated facts -/
 theorem facts_guard :
     (∃ n, Gen.Facts.c02TdcRespChanCap = some n ∧ 1 ≤ n) ∧ (∃ n, Gen.Facts.c02ReuseRespChanCap = some n ∧ 1 ≤ n) ∧
@@ -253,8 +308,9 @@ theorem facts_guard :
     Gen.Facts.c02DohWaitsOnCallerCtx = some true ∧
     (∃ n, Gen.Facts.c02QuicRespChanCap = some n ∧ 1 ≤ n) ∧ Gen.Facts.c02QuicWaitOnlyCtxAndReply = some true ∧
     Gen.Facts.c02ObserverLayerKeepsRead = some true ∧
-    Gen.Facts.c02TdcWaiterKeyIsWireId = some true ∧ Gen.Facts.c02TdcQidCounterBits = some 16 := by
-  refine ⟨⟨1, by decide⟩, ⟨1, by decide⟩, ?_, ?_, ?_, ?_, ?_, ?_, ?_, ?_, ⟨1, by decide⟩, ?_, ?_, ?_, ?_⟩ <;> decide
+    Gen.Facts.c02TdcWaiterKeyIsWireId = some true ∧ Gen.Facts.c02TdcQidCounterBits = some 16 ∧
+    (∃ n, Gen.Facts.c02UdpRxBufSize = some n ∧ 512 ≤ n) ∧ Gen.Facts.c02UdpEveryReadGetsFullBuffer = some true := by
+  refine ⟨⟨1, by decide⟩, ⟨1, by decide⟩, ?_, ?_, ?_, ?_, ?_, ?_, ?_, ?_, ⟨1, by decide⟩, ?_, ?_, ?_, ?_, ⟨4095, by decide⟩, ?_⟩ <;> decide
 
 /-! ### Non-vacuity: reply during the send, then EOF, then the caller parks -/
 example : (run ⟨1, true, true⟩ {} [.readerDeliver, .readerClose, .writeReturns, .pickClose]).map (·.phase) = some .gotReply := by decide
